@@ -197,7 +197,8 @@ class SetRun:
 
 
 def probe_variant():
-    """which repairs does the tree under test contain? -> 'ab' (a: NLEN loop, b: short APDU limits)"""
+    """which repairs does the tree under test contain? -> 'abc' (a: NLEN loop, b: short APDU limits,
+    c: capacity limited to the 16 bit offset range)"""
     lay = L4(0x20, 4, 59, 1, 20, b"", bytes(20))
     s = lay.sim()
     r = SetRun(s, b"\x01\x02\x03")
@@ -206,7 +207,10 @@ def probe_variant():
     tag = lay.sim().activate()
     n = tag.ndef
     b = int(n is not None and n._max_le == 256 and n._max_lc == 255)
-    return "%d%d" % (a, b)
+    lay = L4(0x30, 6, 59, 52, 70000, b"", b"")
+    n = lay.sim().activate().ndef
+    c = int(n is not None and n.capacity == 65532)
+    return "%d%d%d" % (a, b, c)
 
 
 def t3_req(op, mem, data=None):
